@@ -831,6 +831,12 @@ def main():
     err = translate_conv.translate_parse(REPO, GEN, write)
     if err:
         notes.append(f"TRANSLATOR-IMP(parse_loader): {err}")
+    err = translate_conv.translate_load(REPO, GEN, write)
+    if err:
+        notes.append(f"TRANSLATOR-IMP(Subgraph._load): {err}")
+    err = translate_conv.translate_load(REPO, GEN, write, "opfython/core/opf.py", "OPF", "_read_distances", "ReadDistImp")
+    if err:
+        notes.append(f"TRANSLATOR-IMP(OPF._read_distances): {err}")
     for n in notes:
         print(n)
     return 0
